@@ -132,6 +132,7 @@ def check_u2_convert_units(ctx) -> None:
     f = repo.module(P).functions.get('ConvertUnits')
     ctx.require(f is not None, 'Parameter.ConvertUnits not found')
     rel = f.module.rel
+    ctx.local_anchor(f, 'currType', 'New_valQ', 'Old_valQ', 'prefType', 'parts')
     key_cu = 'ParamToModify.CurrentUnits'
     pe = PathEnumerator(f.node.body, {key_cu, 'strUnit'}, fork_all=True, track_calls=True, prune=True, max_paths=20000)
     paths = [p for p in pe.paths() if p.ended in ('return', 'fallthrough')]
